@@ -28,14 +28,25 @@ func (P *projPoint) initXY(x, y *compatible.Int, c kyber.Group) {
 	P.Z.Init64(1, P.c.P.ToCompatibleMod())
 }
 
+// normalized returns a normalized copy of P. The read-only methods (MarshalBinary, MarshalTo,
+// String, Data, getXY) must not rewrite the coordinates of the receiver: the point may be shared
+// between goroutines (see the contract in kyber.Marshaling), and concurrent in-place
+// normalisation both races and corrupts the value.
+func (P *projPoint) normalized() *projPoint {
+	Q := new(projPoint)
+	Q.Set(P)
+	Q.normalize()
+	return Q
+}
+
 func (P *projPoint) getXY() (x, y *mod.Int) {
-	P.normalize()
-	return &P.X, &P.Y
+	Q := P.normalized()
+	return &Q.X, &Q.Y
 }
 
 func (P *projPoint) String() string {
-	P.normalize()
-	return P.c.pointString(&P.X, &P.Y)
+	Q := P.normalized()
+	return Q.c.pointString(&Q.X, &Q.Y)
 }
 
 func (P *projPoint) MarshalSize() int {
@@ -43,8 +54,8 @@ func (P *projPoint) MarshalSize() int {
 }
 
 func (P *projPoint) MarshalBinary() ([]byte, error) {
-	P.normalize()
-	return P.c.encodePoint(&P.X, &P.Y), nil
+	Q := P.normalized()
+	return Q.c.encodePoint(&Q.X, &Q.Y), nil
 }
 
 func (P *projPoint) UnmarshalBinary(b []byte) error {
@@ -125,8 +136,8 @@ func (P *projPoint) Pick(rand cipher.Stream) kyber.Point {
 
 // Extract embedded data from a point group element
 func (P *projPoint) Data() ([]byte, error) {
-	P.normalize()
-	return P.c.data(&P.X, &P.Y)
+	Q := P.normalized()
+	return Q.c.data(&Q.X, &Q.Y)
 }
 
 // Add two points using optimized projective coordinate addition formulas.
